@@ -146,7 +146,8 @@ FieldDom == << <<2, 2, 2, 2, 3, 2>>,   \* Term: name, label, definition, an extr
                \* some values are the SAME value spelled differently (equal for the models, so equal for the contract):
                <<2, 2, 2, 4>>,    \* Note: uuid, message, is_issue, created_on (two naive times; 12:00Z; 13:00+01:00 = the
                                   \*       same instant as 12:00Z)
-               <<2, 2, 3, 2>>,    \* SoundEvent: uuid, geometry, recording (r1, r2, r1 with its path spelled "./r1.wav"), features
+               <<2, 4, 3, 2>>,    \* SoundEvent: uuid, geometry (interval [1, 2]; box; interval [0.0, 2.0]; the same interval spelled
+                                  \*       [-0.0, 2]), recording (r1, r2, r1 with its path spelled "./r1.wav"), features
                <<2, 2, 2, 2>>,    \* SoundEventAnnotation: uuid, sound_event, tags, notes
                <<2, 2, 3, 2>>,    \* SoundEventPrediction: uuid, sound_event, score (0.5, 1.0, the int 1), tags
                <<2, 2, 2, 2>> >>  \* ClipPrediction: uuid, clip, tags, features
@@ -157,7 +158,8 @@ Objects(cls) == Vectors(FieldDom[cls], 1)
 \* model equality = all declared fields equal (Feature value: 0.0 and -0.0 are the same number)
 Norm(cls, x) == CASE cls = 3 /\ x[2] = 2 -> <<x[1], 1>>                    \* -0.0 = 0.0
                   [] cls = 4 /\ x[4] = 4 -> [x EXCEPT ![4] = 3]             \* one instant, two UTC offsets
-                  [] cls = 5 /\ x[3] = 3 -> [x EXCEPT ![3] = 1]             \* one path, two spellings
+                  [] cls = 5 -> [x EXCEPT ![3] = IF x[3] = 3 THEN 1 ELSE x[3],    \* one path, two spellings
+                                           ![2] = IF x[2] = 4 THEN 3 ELSE x[2]]     \* -0.0 = 0.0, 2 = 2.0
                   [] cls = 7 /\ x[3] = 3 -> [x EXCEPT ![3] = 2]             \* 1 = 1.0
                   [] OTHER -> x
 \* NaN is not equal to itself, so a Feature holding NaN equals no other Feature object (not even one built alike)
